@@ -1,7 +1,9 @@
 """C14 - spectrum assignment never double-books a slot and honours what the user fixed.
 
-Monitor: the real assignment routine is stepped one request at a time; after every step the request outcome and a
-copy of every OMS bitmap are recorded and replayed against an executable allocator model (sets of slot indices
+Monitor: in two thirds of the histories the real assignment routine is stepped one request at a time; after every step
+the request outcome and a copy of every OMS bitmap are recorded; in the others it is called once with the whole batch
+(as planning() does) and only the outcomes and the final maps are recorded.  Both are replayed against an executable
+allocator model (sets of slot indices
 per OMS): disjointness in both directions, same range on every OMS of the path, inside usable band and guard bands,
 enough slots, first-fit position by brute force on the pre-state, fixed N/M used as given or blocked, blocked =>
 no bitmap change, final occupancy = union of the accepted assignments.
@@ -32,7 +34,7 @@ ASSUMPTIONS = ['first-fit optimality is judged for requests whose slots are all 
                'the model reads the guard-band limits and usable slots from the initial maps (C15 judges those)']
 REQUIRED_COUNTERS = {'requests_stepped': 300, 'accepted': 100, 'blocked': 20, 'first_fit_checks': 60,
                      'fixed_slot_requests': 40, 'multi_slot_requests': 30, 'blocked_no_change_checks': 20,
-                     'final_occupancy_checks': 20}
+                     'final_occupancy_checks': 20, 'batched_calls': 10, 'requests_in_batched_calls': 100}
 CASE_TIMEOUT = {'quick': 200, 'thorough': 400}
 FREE, OCC, UNU = BitmapValue.FREE, BitmapValue.OCCUPIED, BitmapValue.UNUSABLE
 
@@ -197,6 +199,45 @@ def judge_step(ctx, model, oms_list, oms_ids, slots, rq, nb_wl, per_m, before, a
     return True
 
 
+def judge_batch(ctx, model, oms_list, steps, err):
+    """The routine was called ONCE with the whole batch (the way planning() calls it): whatever it shares between the
+    requests of one call (tentative maps, caches) is in play.  The outcomes are replayed in order against the model;
+    the model's own maps stand for the unobservable intermediate states and the real final maps must equal the
+    model's."""
+    ctx.count('batched_calls')
+    if err is not None:
+        ctx.violation('assignment-raised', f'batch of {len(steps)} requests: {type(err).__name__}: {err}')
+        return
+    for st in steps:
+        before = [model.expected_bitmap(k) for k in range(len(oms_list))]
+        rq = st['rq']
+        if getattr(rq, 'blocking_reason', None) is None and rq.N is not None:
+            try:
+                rngs = [(n - m, n + m - 1) for n, m in zip(rq.N, rq.M)]
+            except TypeError:
+                rngs = []
+            after = []
+            for k in range(len(oms_list)):
+                occ = set(model.occupied[k])
+                if k in st['oms_ids']:
+                    for a, b in rngs:
+                        occ.update(range(a, b + 1))
+                after.append([OCC if n in occ else v for n, v in zip(model.index, model.initial[k])])
+        else:
+            after = before
+        judge_step(ctx, model, oms_list, st['oms_ids'], st['slots'], rq, st['nb_wl'], st['per_m'], before, after, None)
+        ctx.count('requests_in_batched_calls')
+        if any(v['mechanism'] is None for v in ctx.violations):
+            return
+    ctx.count('final_occupancy_checks')
+    for k, o in enumerate(oms_list):
+        if list(o.spectrum_bitmap.bitmap) != model.expected_bitmap(k):
+            diff = [n for n, x, y in zip(model.index, o.spectrum_bitmap.bitmap, model.expected_bitmap(k)) if x != y][:6]
+            ctx.violation('final-occupancy', f'OMS {k}: after one call with {len(steps)} requests the map differs from the '
+                          f'union of the accepted assignments at slots {diff}')
+            return
+
+
 # ------------------------------------------------------------------------------------------------------------
 
 class El(Fused):
@@ -230,6 +271,8 @@ def run_synthetic(case, ctx):
     hist = []
     n_req = rng.randint(1, 40)
     any_acc = any_blk = special = False
+    batched = rng.random() < 0.35
+    steps = []
     for r in range(n_req):
         fwd = sorted(rng.sample(range(n_pairs), rng.randint(1, n_pairs)))
         bidir = rng.random() < 0.7
@@ -275,6 +318,12 @@ def run_synthetic(case, ctx):
             slots = [(cn, max(1, need - per_m))] if nb_wl > 1 else [(cn, max(1, per_m - 1))]
         rq = make_req(r, slots, spacing, nb_wl * 100e9)
         oms_ids = set(build_path_oms_id_list(path + rpath))
+        if batched:
+            steps.append({'rq': rq, 'path': path, 'rpath': rpath, 'slots': slots, 'nb_wl': nb_wl, 'per_m': per_m,
+                          'oms_ids': oms_ids, 'kind': kind})
+            special = special or kind != 'free'
+            ctx.cls(f'kind:{kind}', 'bidir' if bidir else 'unidir', f'oms:{len(oms_ids)}', 'batched')
+            continue
         before = snapshot(oms_list)
         err = None
         try:
@@ -300,12 +349,29 @@ def run_synthetic(case, ctx):
             ctx.dump.update({'f_min': f_min, 'f_max': f_max, 'initial_maps': [''.join(str(x) for x in b) for b in model.initial],
                              'history': hist})
             return
-    # final occupancy = union of accepted assignments
-    ctx.count('final_occupancy_checks')
-    for k, o in enumerate(oms_list):
-        if list(o.spectrum_bitmap.bitmap) != model.expected_bitmap(k):
-            if not ctx.violations:
-                ctx.violation('final-occupancy', f'OMS {k}: final map differs from the union of the accepted assignments')
+    if batched:
+        err = None
+        try:
+            pth_assign_spectrum([st['path'] for st in steps], [st['rq'] for st in steps], oms_list,
+                                [st['rpath'] for st in steps])
+        except (SpectrumError, ServiceError, ValueError, IndexError, TypeError) as e:
+            err = e
+        judge_batch(ctx, model, oms_list, steps, err)
+        hist = [{'slots': st['slots'], 'nb_wl': st['nb_wl'], 'oms': sorted(st['oms_ids']), 'N': getattr(st['rq'], 'N', None),
+                 'M': getattr(st['rq'], 'M', None), 'blocked': getattr(st['rq'], 'blocking_reason', None)} for st in steps]
+        any_acc = any(h['N'] is not None for h in hist)
+        any_blk = any(h['blocked'] is not None for h in hist)
+        if any(v['mechanism'] is None for v in ctx.violations):
+            ctx.dump.update({'f_min': f_min, 'f_max': f_max, 'batched': True,
+                             'initial_maps': [''.join(str(x) for x in b) for b in model.initial], 'history': hist})
+            return
+    else:
+        # final occupancy = union of accepted assignments
+        ctx.count('final_occupancy_checks')
+        for k, o in enumerate(oms_list):
+            if list(o.spectrum_bitmap.bitmap) != model.expected_bitmap(k):
+                if not ctx.violations:
+                    ctx.violation('final-occupancy', f'OMS {k}: final map differs from the union of the accepted assignments')
     if (any_acc and any_blk) or special:
         ctx.nontrivial(('synthetic', [''.join(str(x) for x in b) for b in model.initial], hist))
     if not ctx.samples:
@@ -347,9 +413,30 @@ def run_planning(case, ctx):
     state = {}
     orig = worker_utils.pth_assign_spectrum
 
+    whole = rng.random() < 0.5
+
     def stepped(pths, rqs, oms_list, rpths, policy='first_fit'):
         model = Model(oms_list)
         state['model'] = model
+        if whole:
+            # one call with the whole batch, exactly as planning() makes it; judged from the outcomes afterwards
+            steps = []
+            for pth, rq, rpth in zip(pths, rqs, rpths):
+                if hasattr(rq, 'blocking_reason'):
+                    continue
+                steps.append({'rq': rq, 'slots': list(zip(rq.N, rq.M)) if getattr(rq, 'N', None) is not None else [(None, None)],
+                              'oms_ids': set(build_path_oms_id_list(pth + rpth)),
+                              'nb_wl': math.ceil(rq.path_bandwidth / rq.bit_rate), 'per_m': math.ceil(rq.spacing / 12.5e9)})
+            err = None
+            try:
+                orig(pths, rqs, oms_list, rpths, policy=policy)
+            except (SpectrumError, ServiceError) as e:
+                err = e
+            judge_batch(ctx, model, oms_list, steps, err)
+            ctx.cls('planning-one-call')
+            if err is not None:
+                raise err
+            return
         for pth, rq, rpth in zip(pths, rqs, rpths):
             slots = list(zip(rq.N, rq.M)) if getattr(rq, 'N', None) is not None else [(None, None)]
             if hasattr(rq, 'blocking_reason'):
